@@ -171,8 +171,8 @@ StageOutcomes(x, exc) ==
             THEN IF ~x.must THEN {keep("none")}                                 \* O3 "silently ignored"
                  ELSE IF x.moved \/ exc THEN {keep("rejected"), keep("none")}   \* (already staged out / an exception is
                  ELSE {keep("rejected")}                                        \*  propagating: silent)   O3 "IOError"
+       ELSE IF exc THEN (IF StrictExc THEN {} ELSE normal) \cup {keep("none"), drop}    \* the block raised: silent
        ELSE IF x.moved THEN normal \cup {keep("none")}                          \* a second stage_out: silent
-       ELSE IF exc THEN (IF StrictExc THEN {} ELSE normal) \cup {keep("none"), drop}
        ELSE normal
 
 \* leaving the with-block: normally (exc = FALSE) or because the block raised (exc = TRUE)
